@@ -464,8 +464,58 @@ func (vm *VisitorModel) analyseHandler(fd *ast.FuncDecl) *handlerInfo {
 	}
 	if fd.Body != nil {
 		w.stmts(fd.Body.List, bTrue)
+		vm.childTextCaptures(fd, hi)
 	}
 	return hi
+}
+
+// childTextCaptures: `switch c := child.(type) { case *parser.OC_XContext: ... c.GetText() ... }` inside a handler
+// that iterates the rule context's children consumes the whole text of child rule X.
+func (vm *VisitorModel) childTextCaptures(fd *ast.FuncDecl, hi *handlerInfo) {
+	info := vm.pkg.TypesInfo
+	ast.Inspect(fd.Body, func(n ast.Node) bool {
+		ts, ok := n.(*ast.TypeSwitchStmt)
+		if !ok {
+			return true
+		}
+		for _, c := range ts.Body.List {
+			cc := c.(*ast.CaseClause)
+			if len(cc.List) != 1 {
+				continue
+			}
+			tv, ok := info.Types[cc.List[0]]
+			if !ok {
+				continue
+			}
+			nt := namedOf(tv.Type)
+			if nt == nil || nt.Obj().Pkg() == nil || !strings.HasSuffix(nt.Obj().Pkg().Path(), "cypher/parser") {
+				continue
+			}
+			name := nt.Obj().Name()
+			if !strings.HasPrefix(name, "OC_") || !strings.HasSuffix(name, "Context") {
+				continue
+			}
+			implicit := info.Implicits[cc]
+			reads := false
+			for _, st := range cc.Body {
+				ast.Inspect(st, func(m ast.Node) bool {
+					if call, ok := m.(*ast.CallExpr); ok {
+						if sel, ok := call.Fun.(*ast.SelectorExpr); ok && sel.Sel.Name == "GetText" {
+							if id, ok := sel.X.(*ast.Ident); ok && implicit != nil && info.Uses[id] == implicit {
+								reads = true
+							}
+						}
+					}
+					return true
+				})
+			}
+			if reads {
+				rule := "oC_" + strings.TrimSuffix(name[3:], "Context")
+				hi.Captures = append(hi.Captures, captureEvent{Kind: "childtext:" + rule, Guard: bTrue, Pos: cc.Pos()})
+			}
+		}
+		return true
+	})
 }
 
 // isRuleCtxType: pointer to a parser rule context, or an interface satisfied by them (TokenProvider, antlr.ParserRuleContext).
@@ -546,12 +596,14 @@ func (w *hwalk) stmt(st ast.Stmt, g *bexpr) *bexpr {
 		g0 := w.stmt(s.Init, g)
 		w.expr(s.Cond, g0)
 		c := w.cond(s.Cond)
-		thenOut := w.stmts(s.Body.List, bAnd(g0, c))
-		var elseOut *bexpr
+		thenIn, elseIn := bAnd(g0, c), bAnd(g0, bNot(c))
+		thenOut := w.stmts(s.Body.List, thenIn)
+		elseOut := elseIn
 		if s.Else != nil {
-			elseOut = w.stmt(s.Else, bAnd(g0, bNot(c)))
-		} else {
-			elseOut = bAnd(g0, bNot(c))
+			elseOut = w.stmt(s.Else, elseIn)
+		}
+		if thenOut == thenIn && elseOut == elseIn {
+			return g0 // neither branch leaves: the guard after the statement is the guard before it
 		}
 		return bOr(thenOut, elseOut)
 	case *ast.ReturnStmt:
@@ -993,7 +1045,7 @@ func isNilIdent(info *types.Info, e ast.Expr) bool {
 }
 
 func (w *hwalk) lenCompare(x *ast.BinaryExpr) (*bexpr, bool) {
-	l, r := ast.Unparen(x.X), ast.Unparen(x.Y)
+	l, r := w.resolve(ast.Unparen(x.X)), w.resolve(ast.Unparen(x.Y))
 	op := x.Op
 	// normalise to len(...) op const
 	if _, ok := l.(*ast.BasicLit); ok {
